@@ -63,6 +63,13 @@ pub fn check_structure(s: &Sprite, f: &AsepriteFile) -> std::result::Result<(), 
         chk!(f.layer_by_name(&m.name).map(|x| x.id()) == Some(first as u32), "layer_by_name returns the lowest id");
     }
     chk!(f.layer_by_name("\u{0}no such layer").is_none(), "layer_by_name of an absent name");
+    // near misses: the lookup is by EXACT name (case, surrounding blanks, prefixes are different names)
+    for m in s.layers.iter() {
+        for q in [m.name.to_uppercase(), m.name.to_lowercase(), format!("{} ", m.name), format!(" {}", m.name), m.name.chars().skip(1).collect::<String>()] {
+            let want = s.layers.iter().position(|x| x.name == q).map(|i| i as u32);
+            chk!(f.layer_by_name(&q).map(|x| x.id()) == want, "layer_by_name({:?}) must be the lowest layer with exactly that name ({:?})", q, want);
+        }
+    }
     chk!(f.num_tags() == s.tags.len() as u32, "tag count");
     chk!(f.get_tag(s.tags.len() as u32).is_none() && f.get_tag(u32::MAX).is_none(), "get_tag out of range");
     for (i, m) in s.tags.iter().enumerate() {
@@ -82,6 +89,13 @@ pub fn check_structure(s: &Sprite, f: &AsepriteFile) -> std::result::Result<(), 
         chk!(std::ptr::eq(bn, f.tag(first as u32)), "tag_by_name returns the lowest id");
     }
     chk!(f.tag_by_name("\u{0}none").is_none(), "tag_by_name absent");
+    for m in s.tags.iter() {
+        for q in [m.name.to_uppercase(), m.name.to_lowercase(), format!("{} ", m.name), m.name.chars().skip(1).collect::<String>()] {
+            let want = s.tags.iter().position(|x| x.name == q);
+            let got = f.tag_by_name(&q);
+            chk!(got.is_some() == want.is_some() && want.map_or(true, |i| std::ptr::eq(got.unwrap(), f.tag(i as u32))), "tag_by_name({:?}) must be the lowest tag with exactly that name", q);
+        }
+    }
     chk!(f.slices().len() == s.slices.len(), "slice count");
     for (i, m) in s.slices.iter().enumerate() {
         let g = &f.slices()[i];
